@@ -373,6 +373,8 @@ def run_impl(case, m, time_limit=20):
     total_rows = sum(len(s["rows"]) for f in case["files"] for s in f["sheets"])
     limit = 50 * (total_rows + 10)
     _AUDIT["prefix"], _AUDIT["events"] = str(m.root), events
+    # a load that reads every location at most once cannot need more reads than there are locations
+    _AUDIT["limit"] = 4 * (len(case["files"]) + len(case["folders"])) + 12
     old = signal.signal(signal.SIGALRM, _alarm)
     signal.alarm(time_limit)
     try:
@@ -1048,6 +1050,10 @@ def run(tier, seed, model_ok, translator, search=False):
                 out.nontrivial.add(hash(repr(case["files"]) + repr(case["roots"])))
             classify(case, impl, out)
             oracle(case, m, impl, out)
+            if len(out.failures) >= 25:
+                out.notes.append("stopped generating after 25 oracle failures")
+                shutil.rmtree(m.root, ignore_errors=True)
+                break
             if model_ok and not search:
                 table = resolve_table(case, m, r.MemLocationFile)
                 ops.append(model_op(case, m, nodes, table, order))
